@@ -748,3 +748,63 @@ func ruleC02Case(c *Ctx) {
 	})
 	c.Check(len(why) == 0, "c02.case", key, c.P.Pos(f.Pos()), "true condition => its value; none => ELSE or NULL", strings.Join(uniq(why), "; "))
 }
+
+func init() { register("C02", ruleC02ColumnNameComplete); register("C01", ruleC02ColumnNameComplete) }
+
+// ruleC02ColumnNameComplete: every component of a dotted column reference reaches the selector.
+func ruleC02ColumnNameComplete(c *Ctx) {
+	c.Doc("c02.column-name-complete", "column references (BuildColumnName): the parser stores a.b.c as ColName{Qualifier: TableName{Qualifier: a, Name: b}, Name: c}; the builder reads all three name fields (Name, Qualifier.Name, Qualifier.Qualifier) and both of its string results derive from them — dropping the outermost component makes `n.x.y` read the unrelated column `x.y`")
+	f := c.P.Func(modPath, "BuildColumnName")
+	if f == nil {
+		c.Unknown("c02.column-name-complete", "BuildColumnName", "-", "anchor lost")
+		return
+	}
+	c.Fn("BuildColumnName")
+	read := map[string]bool{}
+	allInstrs(f, func(_ *ssa.BasicBlock, in ssa.Instruction) {
+		var base ssa.Value
+		name := ""
+		switch x := in.(type) {
+		case *ssa.FieldAddr:
+			base, name = x.X, fieldName(x.X.Type(), x.Field)
+		case *ssa.Field:
+			base, name = x.X, fieldName(x.X.Type(), x.Field)
+		default:
+			return
+		}
+		path := name
+		for base != nil {
+			switch b := base.(type) {
+			case *ssa.FieldAddr:
+				path = fieldName(b.X.Type(), b.Field) + "." + path
+				base = b.X
+				continue
+			case *ssa.Field:
+				path = fieldName(b.X.Type(), b.Field) + "." + path
+				base = b.X
+				continue
+			case *ssa.UnOp:
+				base = b.X
+				continue
+			}
+			break
+		}
+		read[path] = true
+	})
+	var missing []string
+	for _, want := range []string{"Name", "Qualifier.Name", "Qualifier.Qualifier"} {
+		found := false
+		for p := range read {
+			if p == want || strings.HasSuffix(p, "."+want) && !strings.HasSuffix(p, "Qualifier."+want) || p == want {
+				found = true
+			}
+			if want == "Name" && p == "Name" {
+				found = true
+			}
+		}
+		if !found {
+			missing = append(missing, want)
+		}
+	}
+	c.Check(len(missing) == 0, "c02.column-name-complete", "BuildColumnName", c.P.Pos(f.Pos()), "Name, Qualifier.Name and Qualifier.Qualifier are read", "the column-name builder never reads "+strings.Join(missing, ", ")+": that component of a dotted reference is dropped and another column is read")
+}
